@@ -12,7 +12,7 @@ import vlib
 from vlib import Violation, coq_list
 
 ID = "C20"
-GEN_UNITS = ["ADTerms", "Euler"]
+GEN_UNITS = ["ADTerms", "Euler", "GradFlow"]
 PROPS_FILE = "Props/C20.v"
 PROPS_MOD = "Props.C20"
 COQ_TARGETS = ["Props/C20.vo", "Model/ADCheck.vo"]
@@ -81,6 +81,9 @@ def mirror_eval(e, env, table, memo):
     elif op == "fn":
         name = e.args[0]
         a = mirror_eval(e.args[1], env, table, memo)
+        if name == "detach":
+            memo[k] = a
+            return a
 
         def orc(nm):
             key = (UF[nm][0], a)
